@@ -5,15 +5,16 @@ use crate::verif_rt::*;
 use crate::{vassert, vassert_kf, vassume, vcell, vcover, vsym};
 
 macro_rules! flags_and_frame {
-    ($name:expr, $vm:expr, $pre:expr, $ef:expr, $keep_cf:expr, $w_p:expr, $w_pv:expr) => {{
+    ($name:expr, $vm:expr, $pre:expr, $ef:expr, $keep_cf:expr, $w_p:expr, $w_pv:expr,
+     $cf_kf:expr, $cf_region:expr, $sf_kf:expr, $sf_region:expr) => {{
         let post = regs(&$vm);
         let pf = fl_of(post.flag);
         let ecf = if $keep_cf { fl_of($pre.flag).cf } else { $ef.cf };
-        vassert!(concat!("C01.", $name, ".CF"), pf.cf == ecf);
+        vassert_kf!(concat!("C01.", $name, ".CF"), pf.cf == ecf, $cf_kf, $cf_region);
         vassert!(concat!("C01.", $name, ".PF"), pf.pf == $ef.pf);
         vassert!(concat!("C01.", $name, ".AF"), pf.af == $ef.af);
         vassert!(concat!("C01.", $name, ".ZF"), pf.zf == $ef.zf);
-        vassert!(concat!("C01.", $name, ".SF"), pf.sf == $ef.sf);
+        vassert_kf!(concat!("C01.", $name, ".SF"), pf.sf == $ef.sf, $sf_kf, $sf_region);
         vassert!(concat!("C01.", $name, ".OF"), pf.of == $ef.of);
         vassert!(
             concat!("C01.", $name, ".otherflags"),
@@ -42,14 +43,15 @@ macro_rules! bin_harness {
             vassert!(concat!("C01.", $name, ".res"), r == er);
             vcover!(concat!("C01.", $name, ".cover.carry"), ef.cf);
             vcover!(concat!("C01.", $name, ".cover.overflow"), ef.of);
-            flags_and_frame!($name, vm, pre, ef, false, w_p, w_pv);
+            flags_and_frame!($name, vm, pre, ef, false, w_p, w_pv, "", false, "", false);
             done(vm);
         }
     };
 }
 
 macro_rules! un_harness {
-    ($h:ident, $name:expr, $f:ident, $t:ty, $keep_cf:expr, $oracle:expr) => {
+    ($h:ident, $name:expr, $f:ident, $t:ty, $keep_cf:expr, $oracle:expr,
+     $cf_kf:expr, $cf_region:expr, $sf_kf:expr, $sf_region:expr) => {
         #[cfg_attr(kani, kani::proof)]
         pub fn $h() {
             let mut vm = mk_vm();
@@ -64,7 +66,10 @@ macro_rules! un_harness {
             let (er, ef): ($t, Fl) = ($oracle)(w_op1);
             vassert!(concat!("C01.", $name, ".res"), v == er);
             vcover!(concat!("C01.", $name, ".cover.overflow"), ef.of);
-            flags_and_frame!($name, vm, pre, ef, $keep_cf, w_p, w_pv);
+            let in_cf = fl_of(pre.flag).cf;
+            let in_sf = fl_of(pre.flag).sf;
+            flags_and_frame!($name, vm, pre, ef, $keep_cf, w_p, w_pv,
+                $cf_kf, ($cf_region)(w_op1, in_cf), $sf_kf, ($sf_region)(w_op1, in_sf));
             done(vm);
         }
     };
@@ -87,12 +92,22 @@ bin_harness!(c01_word_cmp, "word_cmp", word_cmp, u16, |a, b, _c| {
     (a, f)
 });
 
-un_harness!(c01_byte_inc, "byte_inc", byte_inc, u8, true, |a| ref_add8(a, 1, false));
-un_harness!(c01_byte_dec, "byte_dec", byte_dec, u8, true, |a| ref_sub8(a, 1, false));
-un_harness!(c01_byte_neg, "byte_neg", byte_neg, u8, false, |a| ref_sub8(0, a, false));
-un_harness!(c01_word_inc, "word_inc", word_inc, u16, true, |a| ref_add16(a, 1, false));
-un_harness!(c01_word_dec, "word_dec", word_dec, u16, true, |a| ref_sub16(a, 1, false));
-un_harness!(c01_word_neg, "word_neg", word_neg, u16, false, |a| ref_sub16(0, a, false));
+// Known findings (the repository's own test suite pins these behaviours, so they cannot be
+// repaired without editing tests): INC/DEC overwrite CF with the carry/borrow of the +-1;
+// NEG of 0 keeps the incoming SF.  The obligation is asserted everywhere outside the region
+// in which the defective and the specified behaviour differ.
+un_harness!(c01_byte_inc, "byte_inc", byte_inc, u8, true, |a| ref_add8(a, 1, false),
+    "KF-C01-inc-CF", |a: u8, cf: bool| cf != (a == 0xFF), "", |_a: u8, _s: bool| false);
+un_harness!(c01_byte_dec, "byte_dec", byte_dec, u8, true, |a| ref_sub8(a, 1, false),
+    "KF-C01-dec-CF", |a: u8, cf: bool| cf != (a == 0), "", |_a: u8, _s: bool| false);
+un_harness!(c01_byte_neg, "byte_neg", byte_neg, u8, false, |a| ref_sub8(0, a, false),
+    "", |_a: u8, _c: bool| false, "KF-C01-neg0-SF", |a: u8, sf: bool| a == 0 && sf);
+un_harness!(c01_word_inc, "word_inc", word_inc, u16, true, |a| ref_add16(a, 1, false),
+    "KF-C01-inc-CF", |a: u16, cf: bool| cf != (a == 0xFFFF), "", |_a: u16, _s: bool| false);
+un_harness!(c01_word_dec, "word_dec", word_dec, u16, true, |a| ref_sub16(a, 1, false),
+    "KF-C01-dec-CF", |a: u16, cf: bool| cf != (a == 0), "", |_a: u16, _s: bool| false);
+un_harness!(c01_word_neg, "word_neg", word_neg, u16, false, |a| ref_sub16(0, a, false),
+    "", |_a: u16, _c: bool| false, "KF-C01-neg0-SF", |a: u16, sf: bool| a == 0 && sf);
 
 // vacuity twin: must FAIL
 #[cfg_attr(kani, kani::proof)]
